@@ -102,7 +102,7 @@ def run(ctx):
                     tp = tagpath(W, other)
                     if tp and tp[1] == ("SRV",):
                         found = True
-                        ctx.check("gate", "srv-mismatch-rejected", not any(rf.reaches(d, o) or d == o for o in oks), "SRV != expected_srv is rejected",
+                        ctx.check("gate", "srv-mismatch-rejected", not any(d == o or rf.feasible_reach(d, {o}) for o in oks), "SRV != expected_srv is rejected",
                                   "a request for another server's SRV can still be answered", rf.loc(s))
     ctx.check("gate", "srv-compared", found, "the request's SRV is compared with expected_srv", "SRV is never compared with expected_srv", ctx.loc(rf))
     cfn, cev, routes = sm.routing(ctx, W)
